@@ -24,8 +24,8 @@ ASSUMPTIONS = [
     "weights finite and non-negative (else rejected)",
 ]
 BUDGET = {
-    "quick": {"cases": 3000, "seconds": 60, "shards": 8},
-    "thorough": {"cases": 50000, "seconds": 540, "shards": 16},
+    "quick": {"cases": 12000, "seconds": 90, "shards": 8},
+    "thorough": {"cases": 300000, "seconds": 900, "shards": 16},
 }
 REQUIRED_OBS = ["arcs_checked", "pdf_checked", "k>n-1", "tied_kth_distance", "eliminate_positive", "eliminate_nonpositive", "all_equal_density",
                 "pre_computed_cases", "displacing_insertion", "bound_fallback_to_1"]
